@@ -22,6 +22,7 @@ type EmitterRoles struct {
 	Dangling                                                []int // map[string][]uint32 fields
 	Err                                                     []string
 	Methods                                                 []*ssa.Function // exported methods, sorted
+	WriterFns                                               map[*ssa.Function]bool // methods that copy a []byte argument into the target
 }
 
 // fieldOfKey extracts the struct field an entry key like "a.address" (possibly inside
@@ -135,6 +136,43 @@ func emitterRoles(ctx *Ctx) *EmitterRoles {
 		r.Err = append(r.Err, fmt.Sprintf("expected two dangling-reference maps, found %d", len(r.Dangling)))
 	}
 	sort.Strings(r.Err)
+	// the writer: the unexported Emitter method(s) taking a []byte whose body copies into
+	// the target buffer (wrappers that merely pass the bytes on are not writers)
+	r.WriterFns = map[*ssa.Function]bool{}
+	if r.Code >= 0 {
+		for _, fn := range ctx.Prog.AllFuncs() {
+			if fn.Pkg != pk || fn.Signature.Recv() == nil || len(fn.Params) < 2 {
+				continue
+			}
+			if !types.Identical(fn.Params[0].Type(), types.NewPointer(r.Named)) {
+				continue
+			}
+			takesBytes := false
+			for _, p := range fn.Params[1:] {
+				if sl, ok := p.Type().Underlying().(*types.Slice); ok {
+					if b, ok := sl.Elem().Underlying().(*types.Basic); ok && b.Kind() == types.Uint8 {
+						takesBytes = true
+					}
+				}
+			}
+			if !takesBytes {
+				continue
+			}
+			for _, b := range fn.Blocks {
+				for _, in := range b.Instrs {
+					c, ok := in.(*ssa.Call)
+					if !ok {
+						continue
+					}
+					if bi, ok := c.Call.Value.(*ssa.Builtin); ok && bi.Name() == "copy" && len(c.Call.Args) == 2 {
+						if derivesFromField(c.Call.Args[0], r.Named, r.Code, 0) {
+							r.WriterFns[fn] = true
+						}
+					}
+				}
+			}
+		}
+	}
 	// exported methods
 	ms := ctx.Prog.SSA.MethodSets.MethodSet(types.NewPointer(r.Named))
 	for i := 0; i < ms.Len(); i++ {
@@ -146,6 +184,28 @@ func emitterRoles(ctx *Ctx) *EmitterRoles {
 	}
 	sort.Slice(r.Methods, func(i, j int) bool { return r.Methods[i].Name() < r.Methods[j].Name() })
 	return r
+}
+
+// derivesFromField: v is a slice of / load from field `field` of a *named value.
+func derivesFromField(v ssa.Value, named *types.Named, field int, depth int) bool {
+	if depth > 6 {
+		return false
+	}
+	switch x := v.(type) {
+	case *ssa.Slice:
+		return derivesFromField(x.X, named, field, depth+1)
+	case *ssa.ChangeType:
+		return derivesFromField(x.X, named, field, depth+1)
+	case *ssa.UnOp:
+		return isFieldLoad(x, named, field)
+	case *ssa.Phi:
+		for _, e := range x.Edges {
+			if derivesFromField(e, named, field, depth+1) {
+				return true
+			}
+		}
+	}
+	return false
 }
 
 func (r *EmitterRoles) fieldName(i int) string {
@@ -307,7 +367,9 @@ func runEmitter(ctx *Ctx, roles *EmitterRoles, fn *ssa.Function, cell EmitCell) 
 		case 1:
 			run.Helpers = append(run.Helpers, hc)
 		case 2:
-			run.Writers = append(run.Writers, hc)
+			if len(roles.WriterFns) == 0 || roles.WriterFns[f] {
+				run.Writers = append(run.Writers, hc)
+			}
 		}
 	}
 	ip.TraceStores = true
@@ -331,6 +393,22 @@ func (r *EmitRun) panicsIn(fn *ssa.Function) []absint.Event {
 	var out []absint.Event
 	for _, e := range r.Events {
 		if e.Kind == "panic" && e.Fn == fn {
+			out = append(out, e)
+		}
+	}
+	return out
+}
+
+// refusals lists the panics of a run that ended without reaching any emit helper or the
+// writer: a width guard (in the method itself or in a guard helper it calls) refused
+// the instruction before anything was emitted.
+func (r *EmitRun) refusals() []absint.Event {
+	if r.Returned || len(r.Helpers) > 0 || len(r.Writers) > 0 {
+		return nil
+	}
+	var out []absint.Event
+	for _, e := range r.Events {
+		if e.Kind == "panic" {
 			out = append(out, e)
 		}
 	}
